@@ -16,7 +16,7 @@ CORRUPT_KINDS = ["subst", "delete", "insert", "insert_nul", "dup", "insert_speci
 SPECIAL_BYTES = b"\n\r\t +-.0123456789=\x01\x00\x0b\x0c\x85\xa0"
 MALFORMED = ["bodylen_alpha", "bodylen_neg", "bodylen_huge", "cks_alpha", "tag_alpha", "no_equals",
              "empty_field", "wrong_order", "truncated", "wrong_begin", "blob",
-             "odd_dup_tag", "odd_tag_after_group", "odd_group_structure", "odd_random_tags"]
+             "odd_dup_tag", "odd_tag_after_group", "odd_group_structure", "odd_random_tags", "hdr_value_alpha"]
 # tags of the FIX 4.4 repeating-group table (count tags and members, nested ones included) + plain ones
 ODD_POOL = ["453", "448", "447", "452", "802", "523", "803", "454", "455", "456", "555", "600", "539", "524", "525",
             "538", "804", "545", "805", "136", "137", "138", "139", "78", "79", "80", "11", "55", "54", "38", "44",
@@ -383,6 +383,15 @@ class StreamSim(PeerSim):
             fr = good[: r.randint(8, len(good) - 1)]
         elif kind == "wrong_begin":
             fr = refframer.build("D", body, begin=b"FIX.4.2", **base)
+        elif kind == "hdr_value_alpha":
+            # well-framed (BodyLength, CheckSum right) but a header value the session layer parses is not a number
+            which = r.choice(["34", "34", "34nul", "36"])
+            if which == "34":
+                fr = refframer.build("D", body, **dict(base, seq=r.choice(["abc", "", "1x", "-", "+7", " 9"])))
+            elif which == "34nul":
+                fr = refframer.build("D", body, **dict(base, seq="\x00" + str(seq)))
+            else:
+                fr = refframer.build("4", [("123", "Y"), ("36", r.choice(["abc", "", "x1"]))], **base)
         else:
             fr = gen_garbage(r, r.randint(1, 200))
         self.n_corrupt += 1
